@@ -233,6 +233,15 @@ class TextOnly:
 
 
 @dataclass
+class TextMore(TextAttr):
+    """a derived class, reached through xsi:type"""
+    class Meta:
+        namespace = "urn:m"
+
+    c: Optional[str] = field(default=None, metadata={"type": "Attribute"})
+
+
+@dataclass
 class Shuffled:
     """declaration order differs from the order in which XmlMeta groups its vars"""
     class Meta:
